@@ -25,10 +25,11 @@ def dump (b : Buf) : String :=
   s!"{b.w}x{b.h}:" ++ " ".intercalate cellsStr
 
 /-- one op; returns new buffer and an optional observation -/
-def stepOp (rw : Rune → Int) (b : Buf) (op : String) : Buf × Option String :=
+def stepOp (rw : Rune → Int) (b : Buf) (op : String) (fz : Bool := false) : Buf × Option String :=
   match words op with
   | ["S", x, y, m, c, st] => (b.setContent rw (toInt! x) (toInt! y) (toInt! m) (intList c) (parseStyle st), none)
-  | ["F", r, st] => (b.fill (toInt! r) (parseStyle st), none)
+  | ["F", r, st] => (b.fillV fz rw (toInt! r) (parseStyle st), none)
+  | ["V", "fz"] => (b, none)
   | ["R", w, h] => (b.resize (toInt! w) (toInt! h), none)
   | ["I"] => (b.invalidate, none)
   | ["D", x, y, d] => (b.setDirty (toInt! x) (toInt! y) (d = "1"), none)
@@ -41,8 +42,10 @@ def stepOp (rw : Rune → Int) (b : Buf) (op : String) : Buf × Option String :=
 
 def run (rw : Rune → Int) (rest : String) : String :=
   let ops := splitTrim rest ";"
+  -- pseudo-op `V fz` = the tree under test has the Fill repair (probed by the harness, `fillZWSuffix` in engines/cb.go)
+  let fz := ops.any (fun o => words o == ["V", "fz"])
   let (b, obs) := ops.foldl (fun (acc : Buf × Array String) op =>
-    let (b', o) := stepOp rw acc.1 op
+    let (b', o) := stepOp rw acc.1 op fz
     (b', match o with | some s => acc.2.push s | none => acc.2)) (Buf.empty, #[])
   " ".intercalate obs.toList ++ " H " ++ dump b
 
